@@ -386,7 +386,7 @@ Definition take_dbg (before : text) (s3 : text) : option text * text :=
   end.
 
 (* the conversion of a replacement field.  A bang at the very end of input makes conversion empty,
-   and the field then fails for want of a closing brace. *)
+   and the field then ends prematurely for want of a closing brace. *)
 Definition take_conv (s4 : text) : option N * text :=
   match s4 with
   | b :: t => if N.eqb b c_bang
@@ -598,7 +598,7 @@ Definition fcomp_body (raw ts : bool) (s : text) : res :=
                       end in
             RSeq (pre ++ [MNode (KFComp cv ts) [m]]) t
           else RErr ELex
-      | [] => RErr ELex
+      | [] => RErr EPremature       (* the input ends where the closing brace of the field should be *)
       end
   | x => x
   end.
